@@ -20,7 +20,7 @@ func init() {
 		ID:        "C01",
 		Technique: "reference-model monitor: exact big.Rat column and vertical index, tolerance-banded closed-form Mercator row, exact range checks",
 		Rule: "per case: zooms (h,v) in 0..35^2 and a list of 1-12 points (uniform in the domain; exactly on tile boundaries -180+360k/2^z and lat(k,z) and their Nextafter neighbours; domain edges lon=+-180, " +
-			"nextafter(180,-inf), +-0, +-1e-300, lat=+-85.0511287798, 0; altitudes 0, +-2^25, +-tiny, exact multiples of 2^(25-v) and their neighbours, negative non-multiples; repeated points and list neighbours sharing a coordinate). " +
+			"nextafter(180,-inf), +-0, +-1e-300, lat=+-85.0511287798, 0; altitudes 0, +-2^25, +-tiny, exact multiples of 2^(25-v) and their neighbours, negative non-multiples; repeated points and list neighbours sharing a coordinate; 0.3 % of the lists have 1024..16384 points, lengths at and around multiples of 4096). " +
 			"Oracle per element i: f exact (no tolerance), x exact with a 2^h*2^-49 band at boundaries, y closed form with a 2^h*8e-15 band, 0 <= x,y < 2^h without tolerance; same voxel from the spatial-ID form; length and order kept. " +
 			"Directed: every (h,v) pair x 40 edge points. Non-trivial = h+v > 0; distinct by (points, h, v).",
 		Assume:     []string{"closed-form row y = 2^h(1-asinh(tan lat)/pi)/2 evaluated in float64 is within 2^h*8e-15 of the real value", "latitude of a point is its stored (1e-10-truncated) value"},
@@ -175,6 +175,10 @@ func runC01(c *core.Case) {
 		if r.P(0.5) {
 			n = 1
 		}
+		if r.P(0.002) { // long lists around batch sizes (implementations that chunk or parallelise must keep length and order)
+			n = longLen(r)
+			c.Tag("long-list")
+		}
 		for i := 0; i < n; i++ {
 			p := pt{genLon(r, h), genLat(r, h), genAlt(r, v)}
 			if i > 0 {
@@ -228,6 +232,7 @@ func runC01(c *core.Case) {
 	}
 	band := false
 	nBand := 0
+	below := false
 	for i, o := range objs {
 		if o.Lon() != pts[i].lon || o.Alt() != pts[i].alt || math.Abs(o.Lat()-pts[i].lat) > 1.1e-10 {
 			c.Fail("input-modified", nil, "point %d was modified by the call", i)
@@ -245,8 +250,11 @@ func runC01(c *core.Case) {
 			nBand++
 		}
 		if o.Alt() < 0 {
-			c.Tag("below-ground")
+			below = true
 		}
+	}
+	if below {
+		c.Tag("below-ground")
 	}
 	if band {
 		c.Tag("in-band")
